@@ -925,6 +925,12 @@ class Interp:
                 parts.append(v.value)
             else:
                 x = self.eval(v.value, frame)
+                if v.format_spec is not None and v.conversion == -1 and not has_sym(x):
+                    spec = self.eval(v.format_spec, frame)
+                    if has_sym(spec):
+                        raise OutOfSubset("symbolic format spec")
+                    parts.append(format(x, spec))   # the spec applies to the value itself, not to its str()
+                    continue
                 if v.conversion == ord("r"):
                     x = _m.repr_(self, x)
                 else:
